@@ -7,6 +7,7 @@ import PygProofs.Lemmas.DfSliceLemmas
 import PygProofs.Lemmas.DfSliceNaLemmas
 import PygProofs.Lemmas.DfSliceBcastLemmas
 import PygProofs.Lemmas.DfSliceFrameLemmas
+import PygProofs.Lemmas.DfSliceOpenLemmas
 
 namespace Pyg.Props.C13
 open Pyg Pyg.Slice
@@ -1731,5 +1732,317 @@ theorem stitch_single_iff (s : TS) (u : Int) (oc : Option (List Char)) (l r : Bo
 
 example : ∃ F, stitch [[(1, some 5), (3, some 7), (4, some 9)]] Option.none (some [3]) (some ['(', ']']) 1 = .ok (some F) ∧ F.rows = [(1, [some 5]), (3, [some 7])] := by
   rw [stitch_single_eq]; exact ⟨_, rfl, by decide⟩
+
+/-! ### bound lists with an UNBOUNDED end (review v4 2.1): `df_slice(dfs, ub = [u_0 .. u_k, None])` - "a missing bound being
+unbounded" inside a bound list.  Model: `directionO`, `normaliseO`, `stitchO`, `unsliceO` (bound lists of `Option Int`). -/
+
+/-- on bound lists of dates the extended model IS the model every other theorem speaks about -/
+theorem stitchO_dates (dfs : List TS) (lb ub : Option (List Int)) (oc : Option (List Char)) (n : Nat) :
+    stitchO dfs (lb.map (List.map some)) (ub.map (List.map some)) oc n = stitch dfs lb ub oc n := by
+  simp only [stitchO, stitch, normaliseO_dates]
+
+/-- the direction test sets a trailing `None` aside; an inner `None` is refused (`TypeError`: `sorted` compares it with a date) -/
+theorem direction_open (ubs : List Int) (hne : ubs ≠ []) :
+    directionO (ubs.map some ++ [Option.none]) = .ok (nonDecreasing ubs) := directionO_open ubs hne
+
+example : directionO [some 1, Option.none, some 2] = .error .type := rfl
+example : directionO [Option.none, some 4, some 2] = .ok false := rfl
+example : directionO [some 2, some 4, Option.none] = .ok true := rfl
+
+/-- **stitch_open_eq** - an unbounded last bound behaves as ANY bound beyond every timestamp of the series (and not below the
+    other bounds): the two stitched frames are the same frame, so every theorem about increasing upper bounds
+    (`stitch_source`, `stitch_once`, `stitch_width`, ...) speaks about the open-ended list too -/
+theorem stitch_open_eq (dfs : List TS) (ubs : List Int) (M : Int) (h : Stitchable dfs (ubs ++ [M]))
+    (hM : ∀ s ∈ dfs, ∀ t ∈ s.index, t < M) (oc : Option (List Char)) (n : Nat) (l u : Bool) (hb : brackets oc = .ok (l, u)) :
+    stitchO dfs Option.none (some (ubs.map some ++ [Option.none])) oc n = stitch dfs Option.none (some (ubs ++ [M])) oc n := by
+  have hne : ubs ≠ [] := by intro h0; have := h.two; simp [h0] at this
+  have hinc : nonDecreasing ubs = true :=
+    pairwise_nonDecreasing _ (List.pairwise_append.mp (nonDecreasing_pairwise _ h.inc)).1
+  have hlen : dfs.length = ubs.length + 1 := by have := h.len; simpa using this
+  have hn1 : normaliseO dfs Option.none (some (ubs.map some ++ [Option.none])) =
+      .ok (dfs, Option.none :: ubs.map some, ubs.map some ++ [Option.none]) := by
+    simp [normaliseO, directionO_open ubs hne, hinc, bind, Except.bind, pure, Except.pure]
+  have hn2 : normalise dfs Option.none (some (ubs ++ [M])) =
+      .ok (dfs, Option.none :: ubs.map some, (ubs ++ [M]).map some) := by
+    simp [normalise, h.inc, pure, Except.pure]
+  rw [stitchO_general dfs _ _ oc n l u hb dfs _ _ hn1 (by simp [hlen]) (by simp [hlen]),
+    stitch_general dfs _ _ oc n l u hb dfs _ _ hn2 (by simp [hlen]) (by simp [hlen]),
+    piecesG_open dfs _ ubs n l u M hM]
+
+/-- there is always such a bound -/
+theorem exists_beyond (xs : List Int) : ∃ M, ∀ x ∈ xs, x < M := by
+  induction xs with
+  | nil => exact ⟨0, by simp⟩
+  | cons a xs ih =>
+    obtain ⟨M, hM⟩ := ih
+    refine ⟨max M (a + 1), ?_⟩
+    intro x hx
+    rcases List.mem_cons.mp hx with rfl | hx
+    · omega
+    · have := hM x hx; omega
+
+/-- **stitch_source_open** - the row characterisation with the LAST interval unbounded above: a row `(t, vs)` is in
+    `df_slice(dfs, ub = [u_0 .. u_{k-1}, None], n)` exactly when, for a piece `i ≤ k` with `t` a timestamp of one of the series
+    `i .. i+n-1`, `t` passes the lower test of `u_{i-1}` (none for `i = 0`) and - for `i < k` only - the upper test of `u_i`;
+    column `j` then carries series `i+j`'s value at `t`.  Stated without any auxiliary bound. -/
+theorem stitch_source_open (dfs : List TS) (ubs : List Int) (hlen : dfs.length = ubs.length + 1) (hne : ubs ≠ [])
+    (hinc : nonDecreasing ubs = true) (oc : Option (List Char)) (n : Nat) (hn : 1 < n) (l u : Bool)
+    (hb : brackets oc = .ok (l, u)) (F : Frame)
+    (hF : stitchO dfs Option.none (some (ubs.map some ++ [Option.none])) oc n = .ok (some F)) (t : Int) (vs : List (Option Int)) :
+    (t, vs) ∈ F.rows ↔ ∃ i, i ≤ ubs.length ∧
+      (∃ s ∈ (dfs.drop i).take n, t ∈ s.index) ∧
+      lbOk l (loBound ubs i) t = true ∧ (∀ hi : i < ubs.length, ubOk u (.date ubs[i]) t = true) ∧
+      vs = padRow F.width (((dfs.drop i).take n).map (·.get t)) := by
+  obtain ⟨M, hM⟩ := exists_beyond (dfs.flatMap TS.index ++ ubs)
+  have hM1 : ∀ s ∈ dfs, ∀ t ∈ s.index, t < M := fun s hs t ht =>
+    hM t (List.mem_append_left _ (List.mem_flatMap.mpr ⟨s, hs, ht⟩))
+  have hM2 : ∀ b ∈ ubs, b ≤ M := fun b hb' => Int.le_of_lt (hM b (List.mem_append_right _ hb'))
+  have hS : Stitchable dfs (ubs ++ [M]) := by
+    refine ⟨by simp [hlen], ?_, ?_⟩
+    · cases ubs with
+      | nil => exact absurd rfl hne
+      | cons a t => simp
+    · apply pairwise_nonDecreasing
+      rw [List.pairwise_append]
+      refine ⟨nonDecreasing_pairwise _ hinc, by simp, ?_⟩
+      intro a ha b hb'
+      rw [List.mem_singleton] at hb'; subst hb'; exact hM2 a ha
+  rw [stitch_open_eq dfs ubs M hS hM1 oc n l u hb] at hF
+  rw [stitch_source dfs (ubs ++ [M]) hS oc n hn l u hb F hF t vs]
+  have hlo : ∀ i, i ≤ ubs.length → loBound (ubs ++ [M]) i = loBound ubs i := by
+    intro i hi
+    unfold loBound
+    by_cases h0 : i = 0
+    · simp [h0]
+    · have : i - 1 < ubs.length := by omega
+      simp [h0, List.getD_eq_getElem?_getD, List.getElem?_append_left this]
+  constructor
+  · rintro ⟨i, hi, hex, h1, h2, h3⟩
+    have hi' : i ≤ ubs.length := by simp at hi; omega
+    refine ⟨i, hi', hex, by rw [← hlo i hi']; exact h1, ?_, h3⟩
+    intro hlt
+    simpa [List.getElem_append_left hlt] using h2
+  · rintro ⟨i, hi, hex, h1, h2, h3⟩
+    refine ⟨i, by simp; omega, hex, by rw [hlo i hi]; exact h1, ?_, h3⟩
+    by_cases hlt : i < ubs.length
+    · simpa [List.getElem_append_left hlt] using h2 hlt
+    · have hi' : i = ubs.length := by omega
+      subst hi'
+      obtain ⟨s, hs, ht⟩ := hex
+      have : t < M := hM1 s (List.mem_of_mem_drop (List.mem_of_mem_take hs)) t ht
+      simp [ubOk]
+      cases u <;> simp <;> omega
+
+/-- **unslice_open_eq** - `df_unslice(F, [u_0 .. u_{k-1}, None])` is `df_unslice(F, [u_0 .. u_{k-1}, M])` for any `M` beyond every
+    row of the frame (and above the other bounds), with the key `M` read as `None`: same series, same ORDER - the unbounded
+    series is filed under `None` in the LAST place (repo fix C13-U2; `listby` used to sort `None` first) -/
+theorem unslice_open_eq (F : Frame) (ubs : List Int) (M : Int) (hM : ∀ r ∈ F.rows, r.1 < M) (hne : ubs ≠ [])
+    (hstrict : (ubs ++ [M]).Pairwise (· < ·)) (hpos : 0 < F.width) :
+    unsliceO F (ubs.map some ++ [Option.none]) =
+      (unslice F (ubs ++ [M])).map (List.map fun p => (reopen M p.1, p.2)) := by
+  have hMu : M ∉ ubs := fun hm => by
+    have := (List.pairwise_append.mp hstrict).2.2 M hm M (by simp); omega
+  have hinc' : nonDecreasing (ubs ++ [M]) = true := pairwise_nonDecreasing _ (hstrict.imp (fun h => Int.le_of_lt h))
+  have hinc : nonDecreasing ubs = true :=
+    pairwise_nonDecreasing _ (List.pairwise_append.mp (nonDecreasing_pairwise _ hinc')).1
+  have hnd : ((ubs ++ [M]).map (reopen M)).Nodup :=
+    List.Pairwise.map (reopen M) (fun a b hab e => hab (reopen_inj M e)) (hstrict.imp (fun h => Int.ne_of_lt h))
+  rw [unslice_eq F _ hinc', unslice_keys F _ hstrict hpos]
+  simp only [unsliceO, directionO_open ubs hne, hinc, if_true, handedO_open F ubs M hM hMu, bind, Except.bind, pure,
+    Except.pure, Except.map]
+  rw [← map_reopen M ubs hMu, eraseDups_of_nodup _ hnd, List.map_map, List.map_map]
+  congr 1
+  apply List.map_congr_left
+  intro u _
+  simp only [Function.comp, filter_reopen]
+
+/-- **unslice_restitch_open** - the round trip under an UNBOUNDED last bound, ANY values: for `k ≥ 1` strictly increasing
+    dates followed by `None` and `k + 1` proper series, `df_unslice` returns one series per bound IN THE ORDER OF THE BOUNDS
+    (the unbounded one last, under `None`), and `df_slice(list(U.values()), ub = ub, n)` reproduces the stitched frame up to its
+    all-NaN rows (exactly, when it has none: `unslice_restitch_iff`'s argument).  Review v4 2.1 / repo fix C13-U2. -/
+theorem unslice_restitch_open (dfs : List TS) (ubs : List Int) (hlen : dfs.length = ubs.length + 1) (hne : ubs ≠ [])
+    (hstrict : ubs.Pairwise (· < ·)) (hs : ∀ s ∈ dfs, s.Sorted) (n : Nat) :
+    ∃ F U, stitchO dfs Option.none (some (ubs.map some ++ [Option.none])) (some ['(', ']']) n = .ok (some F) ∧
+      unsliceO F (ubs.map some ++ [Option.none]) = .ok U ∧
+      U.map (·.1) = ubs.map some ++ [Option.none] ∧
+      stitchO (U.map (·.2)) Option.none (some (ubs.map some ++ [Option.none])) (some ['(', ']']) n = .ok (some F.dropNaRows) := by
+  obtain ⟨M, hM⟩ := exists_beyond (dfs.flatMap TS.index ++ ubs)
+  have hM1 : ∀ s ∈ dfs, ∀ t ∈ s.index, t < M := fun s hs t ht =>
+    hM t (List.mem_append_left _ (List.mem_flatMap.mpr ⟨s, hs, ht⟩))
+  have hM2 : ∀ b ∈ ubs, b < M := fun b hb' => hM b (List.mem_append_right _ hb')
+  have hstrict' : (ubs ++ [M]).Pairwise (· < ·) := by
+    rw [List.pairwise_append]
+    refine ⟨hstrict, by simp, ?_⟩
+    intro a ha b hb'
+    rw [List.mem_singleton] at hb'; subst hb'; exact hM2 a ha
+  have htwo : 2 ≤ (ubs ++ [M]).length := by
+    cases ubs with
+    | nil => exact absurd rfl hne
+    | cons a t => simp
+  have hS : Stitchable dfs (ubs ++ [M]) :=
+    ⟨by simp [hlen], htwo, pairwise_nonDecreasing _ (hstrict'.imp (fun h => Int.le_of_lt h))⟩
+  obtain ⟨F, U', e1, e2, e3, e4⟩ := unslice_restitch_exact dfs (ubs ++ [M]) hS hstrict' hs n
+  -- every row of the stitched frame carries a timestamp of one of the series
+  have hFrows : ∀ r ∈ F.rows, r.1 < M := by
+    obtain ⟨F', hF', hrows⟩ := stitch_eq dfs (ubs ++ [M]) hS (some ['(', ']']) n false true rfl
+    rw [e1] at hF'; cases hF'
+    intro r hr
+    rw [hrows] at hr
+    simp only [List.mem_flatMap, List.mem_map] at hr
+    obtain ⟨f, hf, r', hr', rfl⟩ := hr
+    simp only [pieces, List.mem_map] at hf
+    obtain ⟨x, hx, rfl⟩ := hf
+    have hx1 : x.1 ∈ framesOf dfs n := (List.of_mem_zip hx).1
+    simp only [cut, List.mem_filter] at hr'
+    exact framesOf_rows_lt dfs n M hM1 _ hx1 r' hr'.1
+  have hpos : 0 < F.width := by
+    rcases Nat.eq_zero_or_pos F.width with h0 | h
+    · exfalso
+      have hr : rsOf F (ubs ++ [M]) = [] := by simp [rsOf, h0]
+      rw [unslice_eq F _ hS.inc, hr] at e2
+      cases e2
+      simp at e3
+    · exact h
+  have hU : unsliceO F (ubs.map some ++ [Option.none]) = .ok (U'.map fun p => (reopen M p.1, p.2)) := by
+    rw [unslice_open_eq F ubs M hFrows hne hstrict' hpos, e2]; rfl
+  have hMu : M ∉ ubs := fun hm => by have := hM2 M hm; omega
+  have hsnd : (U'.map fun p => (reopen M p.1, p.2)).map (·.2) = U'.map (·.2) := by
+    rw [List.map_map]; rfl
+  have hfst : (U'.map fun p => (reopen M p.1, p.2)).map (·.1) = ubs.map some ++ [Option.none] := by
+    rw [List.map_map, ← map_reopen M ubs hMu, ← e3, List.map_map]; rfl
+  refine ⟨F, _, ?_, hU, hfst, ?_⟩
+  · rw [stitch_open_eq dfs ubs M hS hM1 _ n false true rfl, e1]
+  · rw [hsnd]
+    -- the recovered series hold timestamps of the frame only
+    have hU'len : (U'.map (·.2)).length = (ubs ++ [M]).length := by rw [← e3]; simp
+    have hS' : Stitchable (U'.map (·.2)) (ubs ++ [M]) := ⟨hU'len, htwo, hS.inc⟩
+    have hM' : ∀ s ∈ U'.map (·.2), ∀ t ∈ s.index, t < M := by
+      intro s hs' t ht
+      rw [unslice_eq F _ hS.inc, unslice_keys F _ hstrict' hpos] at e2
+      cases e2
+      simp only [List.map_map, List.mem_map, Function.comp] at hs'
+      obtain ⟨u, _, rfl⟩ := hs'
+      simp only [TS.index, Slice.nona, List.mem_map, List.mem_filter, List.mem_flatMap] at ht
+      obtain ⟨p, ⟨⟨c, ⟨hc, _⟩, hp⟩, _⟩, rfl⟩ := ht
+      obtain ⟨r, hr, hrt⟩ := rsOf_index_sub F _ c.1 c.2 hc p.1
+        (by simp only [TS.index, List.mem_map]; exact ⟨p, hp, rfl⟩)
+      rw [← hrt]; exact hFrows r hr
+    rw [stitch_open_eq _ ubs M hS' hM' _ n false true rfl, e4]
+
+/-- **unslice_restitch_open_decreasing** - the DECREASING spelling of an unbounded last bound, `ub = [None, u_k-1 .. u_0]` with the
+    series in the matching order (`_is_non_decreasing` sets the leading `None` aside and reads the dates as decreasing): the stitched
+    frame is the frame of the increasing spelling `[u_0 .. u_k-1, None]`, `df_unslice` hands back one series per bound IN THE ORDER
+    GIVEN (the unbounded one FIRST, under `None`), and stitching those again with the same list gives the frame up to its all-NaN
+    rows.  At least two dates: `[None, d]` does not spell a direction. -/
+theorem unslice_restitch_open_decreasing (dfs : List TS) (ubs : List Int) (hlen : dfs.length = ubs.length + 1)
+    (htwo : 2 ≤ ubs.length) (hstrict : ubs.Pairwise (· < ·)) (hs : ∀ s ∈ dfs, s.Sorted) (n : Nat) :
+    ∃ F U, stitchO dfs.reverse Option.none (some (Option.none :: ubs.reverse.map some)) (some ['(', ']']) n = .ok (some F) ∧
+      stitchO dfs Option.none (some (ubs.map some ++ [Option.none])) (some ['(', ']']) n = .ok (some F) ∧
+      unsliceO F (Option.none :: ubs.reverse.map some) = .ok U ∧
+      U.map (·.1) = Option.none :: ubs.reverse.map some ∧
+      stitchO (U.map (·.2)) Option.none (some (Option.none :: ubs.reverse.map some)) (some ['(', ']']) n = .ok (some F.dropNaRows) := by
+  have hne : ubs ≠ [] := by intro h; rw [h] at htwo; simp at htwo
+  obtain ⟨F, U, e1, e2, e3, e4⟩ := unslice_restitch_open dfs ubs hlen hne hstrict hs n
+  have hD : (ubs.map some ++ [Option.none]).reverse = Option.none :: ubs.reverse.map some := by simp [List.map_reverse]
+  have hrne : ubs.reverse ≠ [] := by simpa using hne
+  have hdec : nonDecreasing ubs.reverse = false :=
+    decreasing_not_nonDecreasing _ (by simpa using htwo) (List.pairwise_reverse.mpr (hstrict.imp (fun h => h)))
+  have hinc : nonDecreasing ubs = true := pairwise_nonDecreasing _ (hstrict.imp (fun h => Int.le_of_lt h))
+  have h1 : directionO (Option.none :: ubs.reverse.map some) = .ok false := by
+    rw [directionO_leading_none _ hrne, hdec]
+  have h2 : directionO (Option.none :: ubs.reverse.map some).reverse = .ok true := by
+    rw [← hD, List.reverse_reverse, directionO_open ubs hne, hinc]
+  have hnd : (Option.none :: ubs.reverse.map some).Nodup := by
+    rw [← hD]
+    apply nodup_rev
+    show (ubs.map some ++ [Option.none]).Nodup
+    have : (ubs.map some ++ [Option.none]).Nodup := by
+      rw [List.nodup_append]
+      refine ⟨?_, by simp, ?_⟩
+      · exact List.Pairwise.map some (fun a b hab e => hab (Option.some.inj e)) (hstrict.imp (fun h => Int.ne_of_lt h))
+      · intro a ha b hb
+        rw [List.mem_singleton] at hb; subst hb
+        simp only [List.mem_map] at ha
+        obtain ⟨x, _, hx⟩ := ha
+        intro e; rw [e] at hx; cases hx
+    exact this
+  have hrr : (Option.none :: ubs.reverse.map some).reverse = ubs.map some ++ [Option.none] := by rw [← hD, List.reverse_reverse]
+  refine ⟨F, U.reverse, ?_, e1, ?_, ?_, ?_⟩
+  · rw [stitchO_reverse _ _ h1 h2, List.reverse_reverse, hrr, e1]
+  · rw [unsliceO_reverse F _ h1 h2 hnd, hrr, e2]; rfl
+  · rw [List.map_reverse, e3, hD]
+  · rw [stitchO_reverse _ _ h1 h2, hrr, List.map_reverse, List.reverse_reverse, e4]
+
+/-- the reviewer's input (v4 2.1): three series, bounds `[2, 4, None]`; the extended model stitches 7 rows, `df_unslice` files the
+    unbounded series LAST (keys in the order of the bounds) and the re-stitch reproduces the frame; the decreasing spelling too -/
+def openSeries : List TS := [[(0, some 1), (1, some 2), (2, some 3), (3, some 4)], [(2, some 10), (3, some 20), (4, some 30), (5, some 40)],
+  [(4, some 100), (6, some 200), (7, some 300)]]
+def openBounds : List (Option Int) := [some 2, some 4, Option.none]
+
+#guard (match stitchO openSeries Option.none (some openBounds) (some ['(', ']']) 1 with
+  | .ok (some F) => F.rows.map (·.1) == [0, 1, 2, 3, 4, 6, 7] &&
+      (match unsliceO F openBounds with
+       | .ok U => U.map (·.1) == openBounds &&
+           okEq (stitchO (U.map (·.2)) Option.none (some openBounds) (some ['(', ']']) 1) (some F)
+       | .error _ => false)
+  | _ => false)
+#guard (match stitchO openSeries Option.none (some openBounds) (some ['(', ']']) 2 with
+  | .ok (some F) => (match unsliceO F openBounds with
+       | .ok U => U.map (·.1) == openBounds &&
+           okEq (stitchO (U.map (·.2)) Option.none (some openBounds) (some ['(', ']']) 2) (some F)
+       | .error _ => false)
+  | _ => false)
+#guard (match stitchO openSeries.reverse Option.none (some openBounds.reverse) (some ['(', ']']) 2 with
+  | .ok (some F) => okEq (stitchO openSeries Option.none (some openBounds) (some ['(', ']']) 2) (some F) &&
+      (match unsliceO F openBounds.reverse with
+       | .ok U => U.map (·.1) == openBounds.reverse &&
+           okEq (stitchO (U.map (·.2)) Option.none (some openBounds.reverse) (some ['(', ']']) 2) (some F)
+       | .error _ => false)
+  | _ => false)
+
+/-! ### the round trip for ONE series and ONE bound (reviews t4 2.2 / v4 2.4: so far only sampled) -/
+
+/-- **unslice_restitch_single** - `df_slice([s], ub = [u], n = 1)` then `df_unslice` then `df_slice` again, ANY values (NaN, gaps,
+    unsorted, empty): one series comes back, filed under `u`; it is the rows of `s` up to `u` holding a value (by an independent
+    description: a `filter` of `s`, not the model's slices / columns), and stitching it again gives the frame up to its all-NaN rows -/
+theorem unslice_restitch_single (s : TS) (u : Int) :
+    ∃ F U, stitch [s] Option.none (some [u]) (some ['(', ']']) 1 = .ok (some F) ∧ unslice F [u] = .ok U ∧
+      U.map (·.1) = [u] ∧ U.map (·.2) = [nona (s.filter fun p => decide (p.1 ≤ u))] ∧
+      stitch (U.map (·.2)) Option.none (some [u]) (some ['(', ']']) 1 = .ok (some F.dropNaRows) := by
+  let w : Int → Bool := fun t => lbOk false .none t && ubOk true (.date u) t
+  have hw : ∀ t, w t = decide (t ≤ u) := fun t => by simp [w, lbOk, ubOk]
+  have hst : ∀ x : TS, stitch [x] Option.none (some [u]) (some ['(', ']']) 1 =
+      .ok (some ⟨1, (ofTS x).filter fun r => w r.1⟩) := by
+    intro x
+    rw [stitch_single_eq, sliceOne_eq _ _ _ _ false true rfl]; rfl
+  have hkeys := unslice_keys ⟨1, (ofTS s).filter fun r => w r.1⟩ [u] (by simp) (Nat.one_pos)
+  have hrs : rsOf ⟨1, (ofTS s).filter fun r => w r.1⟩ [u] = [(u, s.filter fun p => w p.1)] := by
+    rw [rsOf_series _ _ rfl]
+    simp only [List.length_cons, List.length_nil, List.range_succ, List.range_zero, List.nil_append, List.map_cons,
+      List.map_nil, List.getD_cons_zero, loBound, if_true, List.filter_filter, inWindow]
+    have : (fun r : Int × List (Option Int) => (lbOk false Bound.none r.1 && ubOk true (Bound.date u) r.1) && w r.1) =
+        fun r => w r.1 := by funext r; simp [w]
+    rw [this, column_ofTS_filter]
+  refine ⟨_, [(u, nona (s.filter fun p => w p.1))], hst s, ?_, ?_, ?_, ?_⟩
+  · rw [unslice_eq _ _ rfl, hkeys]
+    simp [hrs]
+  · simp
+  · simp [hw]
+  · simp only [List.map_cons, List.map_nil]
+    rw [hst, ofTS_nona]
+    simp only [Frame.dropNaRows, List.filter_filter]
+    congr 3
+    have e1 : ∀ X : Rows (List (Option Int)), X.filter (fun a => w a.1 && live a) = (X.filter (fun a => w a.1)).filter live := by
+      intro X; rw [List.filter_filter]; apply List.filter_congr; intro r _; exact Bool.and_comm _ _
+    rw [e1, ofTS_filter_filter s w, List.filter_filter]
+
+example : ∃ F U, stitch [[(1, some 5), (2, Option.none), (3, some 7), (4, some 9)]] Option.none (some [3]) (some ['(', ']']) 1 = .ok (some F) ∧
+    unslice F [3] = .ok U ∧ U = [(3, [(1, some 5), (3, some 7)])] := by
+  obtain ⟨F, U, h1, h2, h3, h4, _⟩ := unslice_restitch_single [(1, some 5), (2, Option.none), (3, some 7), (4, some 9)] 3
+  refine ⟨F, U, h1, h2, ?_⟩
+  match U, h3, h4 with
+  | [(k, v)], h3, h4 =>
+    simp only [List.map_cons, List.map_nil, List.cons.injEq, and_true] at h3 h4
+    subst h3; subst h4; decide
 
 end Pyg.Props.C13
